@@ -9,7 +9,7 @@ from datetime import datetime as dt
 
 from mc import corpus
 from mc import enum as E
-from mc import logcap, rxlang
+from mc import logcap, modstate, rxlang
 
 PROPERTY = "C05"
 LEVEL = "exploration"
@@ -194,7 +194,7 @@ def elements(code: str) -> list[str]:
     elif code == "000A":
         out = [i + f + "01F40DAC" for i in idxs for f in ("00", "10", "13")] + [i + "10" + "7FFF7FFF" for i in idxs[:2]]
     elif code == "3150":
-        out = [i + v for i in idxs for v in vals["2"][:3]]
+        out = [i + v for i in idxs + ["FC"] for v in vals["2"][:3]]  # (a UFC reports its circuits and the FC domain in one array)
     elif code == "22C9":
         out = [i + b + s for i in idxs for b in ("01F40A28", "03200BB8") for s in ("01", "02")]  # (both mode bytes the regex allows)
     elif code == "2249":
@@ -294,6 +294,16 @@ def _frozen(res):
         return (res[0], repr(res[1]))
 
 
+def fresh() -> None:
+    """Every lru cache cleared and every module-/class-level container of the library put back to what it held before the first
+    decode of this run (the snapshot is taken in the parent, before the workers fork)."""
+    import ramses_rf  # noqa: F401
+    from ramses_tx import message, parsers  # noqa: F401
+
+    modstate.snapshot()
+    modstate.reset()
+
+
 def shard_order(arg) -> E.Tally:
     i, n, limit, triples = arg
     logcap.silence_all()
@@ -301,7 +311,7 @@ def shard_order(arg) -> E.Tally:
     reps = representatives(limit)
     alone = {}
     for fr in reps:
-        clear_caches()
+        fresh()
         alone[fr] = _frozen(decode(fr)[:2])  # (a snapshot: a decoder that hands out a shared object would otherwise change it under us)
     # the first packet of a pair also in a numbered-sequence form (sequence numbers are what memoised / shared results trip over)
     firsts = reps + [fr[:3] + "045" + fr[6:] for fr in reps if fr[3:6] == "---"]
@@ -312,7 +322,7 @@ def shard_order(arg) -> E.Tally:
             continue
         for b in reps:
             t.n += 1
-            clear_caches()
+            fresh()
             decode(a)
             got = _frozen(decode(b)[:2])
             if got != alone[b]:
@@ -323,7 +333,7 @@ def shard_order(arg) -> E.Tally:
             for b in sub:
                 for c in sub:
                     t.n += 1
-                    clear_caches()
+                    fresh()
                     decode(a)
                     decode(b)
                     got = _frozen(decode(c)[:2])
@@ -333,15 +343,71 @@ def shard_order(arg) -> E.Tally:
     return t
 
 
+def shard_order_same_code(arg) -> E.Tally:
+    """Within one verb/code: every ordered pair over (address shape x payload) - a decoder that memoises on part of the frame
+    (a payload byte, a sequence number, the source) would hand the second packet what it worked out for the first."""
+    i, n, quick = arg
+    from ramses_tx.ramses import CODES_SCHEMA
+
+    logcap.silence_all()
+    t = E.Tally()
+    seen: dict = {}
+    for fr in corpus.distinct_frames():
+        f = fr.split()
+        seen.setdefault((fr[:2], f[-3]), []).append((" ".join(f[-6:-3]), f[-1]))
+    j = 0
+    na, npl = (3, 3) if quick else (5, 4)
+    for code, d in sorted(CODES_SCHEMA.items()):
+        for verb, rx in sorted(d.items()):
+            if verb not in ADDRS:
+                continue
+            j += 1
+            if j % n != i:
+                continue
+            logs = seen.get((verb, code), [])
+            addrs, pls = [], []
+            for a, w in logs:
+                if tuple(x[:2] for x in a.split()) not in {tuple(x[:2] for x in y.split()) for y in addrs}:
+                    addrs.append(a)
+                if w not in pls:
+                    pls.append(w)
+            addrs = (ADDRS[verb] + addrs)[: na + 3]
+            words = [w for w in itertools.islice(rxlang.words(rx, k=1), npl)]
+            pls = pls[:npl] + [w for w in words if w not in pls[:npl]][:npl]
+            frames = [f"{verb} {sq} {a} {code} {len(w) // 2:03d} {w}" for a in addrs for w in pls for sq in ("---",)]
+            alone = {}
+            for fr in frames:
+                fresh()
+                alone[fr] = _frozen(decode(fr)[:2])
+            frames = [fr for fr in frames if alone[fr][0] == "ok"]
+            for a in frames:
+                for b in frames:
+                    if a == b:
+                        continue
+                    t.n += 1
+                    t.nontrivial += 1
+                    got = _frozen(decode(b)[:2]) if (fresh(), decode(a)) else None
+                    if got != alone[b]:
+                        t.bad(f"C05:depends-on-earlier-packet:{code}", f"decode({b!r}) after decode({a!r}) = {got!r}, alone = {alone[b]!r}"[:400], {"a": a, "b": b})
+                        break
+    t.by["ordered_pairs_same_code"] = t.n
+    return t
+
+
 def _dispatch(job) -> E.Tally:
     return globals()[job[0]](job[1])
 
 
 def run(ctx) -> None:
     q = ctx.quick
+    import ramses_rf  # noqa: F401  (everything imported, nothing decoded yet)
+    from ramses_tx import message, parsers  # noqa: F401
+
+    ctx.coverage["module_level_containers_reset_between_runs"] = modstate.snapshot()
     jobs = [("shard_words", (i, 48, q)) for i in range(48)]
     jobs += [("shard_arrays", (i, 16, q)) for i in range(16)]
     jobs += [("shard_order", (i, 16, 300 if q else 1500, not q)) for i in range(16)]
+    jobs += [("shard_order_same_code", (i, 16, q)) for i in range(16)]
     total = E.pmap(_dispatch, jobs, ctx.seed)
     E.report(
         ctx,
@@ -350,7 +416,7 @@ def run(ctx) -> None:
         "sentinels) under several address shapes: JSON round trip, same result again / a year later / after clearing every lru cache, reported index = "
         "frame bytes, ratios in 0..1, temperatures in wire range; all arrays of length 1..3 over an element domain and all 1-element deviations of "
         "lengths 4..8 for the 7 array codes: array == [element alone]; all ordered pairs of representative packets (one per verb/code/shape of the logs; the first of a pair also with a numeric sequence number): "
-        "decode(B) after decode(A) == decode(B) alone. non-trivial = packets that decode",
+        "decode(B) after decode(A) == decode(B) alone; and, within each verb/code, all ordered pairs over (address shapes of the logs + the standard ones) x (payloads of the logs + regex words). non-trivial = packets that decode",
         exhaustive=True,
     )
     ctx.assumptions += ["index rule: zone/domain/dhw/ufh/hvac idx = first payload byte (of the element), log_idx / msg_id = third byte; 0005/000C/0404/1FC9/2411 indexes are not compared"]
@@ -360,9 +426,9 @@ def replay(rep: dict):
     logcap.silence_all()
     t = E.Tally()
     if "a" in rep:
-        clear_caches()
+        fresh()
         alone = _frozen(decode(rep["b"])[:2])
-        clear_caches()
+        fresh()
         decode(rep["a"])
         got = _frozen(decode(rep["b"])[:2])
         if got != alone:
